@@ -172,6 +172,9 @@ type TFact struct {
 
 type absint struct {
 	diffBusy   bool
+	linBusy    bool
+	edgeCtx    map[ssa.Instruction][]TFact
+	phiProof   map[*ssa.Phi]bool
 	w          *World
 	memo       map[ssa.Value]ival
 	assume     map[ssa.Value]ival
@@ -460,7 +463,7 @@ func (a *absint) eval1(v ssa.Value) ival {
 		}
 	case *ssa.Call:
 		if b, ok := x.Call.Value.(*ssa.Builtin); ok {
-			switch b.Name() {
+			switch nm(b) {
 			case "len", "cap":
 				return a.lenOf(x.Call.Args[0])
 			case "copy":
@@ -635,6 +638,8 @@ func (a *absint) tfactsAt(at ssa.Instruction) []TFact {
 	for _, f := range a.w.factsAt(at) {
 		out = append(out, a.lift(f, 3)...)
 	}
+	// proving "on the edge pred→succ": the edge's own condition is added
+	out = append(out, a.edgeCtx[at]...)
 	out = a.diffFacts(out, at)
 	return out
 }
@@ -1092,7 +1097,7 @@ func (a *absint) nonNeg(t Term, at ssa.Instruction) (bool, string) {
 	}
 	if !t.Len {
 		if bo, ok := stripIntConv(t.V).(*ssa.BinOp); ok && bo.Op == token.SUB {
-			if ok, why := a.proveLEd(termOf(bo.Y), termOf(bo.X), at, 2); ok {
+			if ok, why := a.proveLEd(termOf(bo.Y), termOf(bo.X), at, 4); ok {
 				return true, "difference of y ≤ x: " + why
 			}
 		}
@@ -1107,6 +1112,10 @@ func (a *absint) nonNeg(t Term, at ssa.Instruction) (bool, string) {
 				return true, "non-decreasing from a non-negative start"
 			}
 		}
+	}
+	zero := Term{V: ssa.NewConst(constant.MakeInt64(0), types.Typ[types.Int])}
+	if ok, why := a.proveLinear(zero, t, at, 0); ok {
+		return true, why
 	}
 	return false, r.String()
 }
@@ -1194,6 +1203,66 @@ func (a *absint) proveLEd(x, y Term, at ssa.Instruction, depth int) (bool, strin
 			}
 		}
 	}
+	if ok, why := a.provePhiEdges(x, y, at, depth, false); ok {
+		return true, why
+	}
+	if ok, why := a.proveLinear(x, y, at, 0); ok {
+		return true, why
+	}
+	// x ≤ e - 1 iff x < e
+	if !y.Len {
+		if bo, ok := stripIntConv(y.V).(*ssa.BinOp); ok && bo.Op == token.SUB {
+			if k, isK := constInt(bo.Y); isK && k == 1 {
+				if ok2, why := a.proveLTd(x, termOf(bo.X), at, depth-1); ok2 {
+					return true, "x < e, so x ≤ e-1; " + why
+				}
+			}
+		}
+	}
+	// z / k ≤ y if z ≤ y (z ≥ 0, k ≥ 1)
+	if !x.Len {
+		if bo, ok := stripIntConv(x.V).(*ssa.BinOp); ok && bo.Op == token.QUO {
+			if k := a.rangeAt(bo.Y, at, 2); k.lo >= 1 {
+				if n := a.rangeOfTerm(termOf(bo.X), at, 2); n.lo >= 0 {
+					if ok2, why := a.proveLEd(termOf(bo.X), y, at, depth-1); ok2 {
+						return true, "e/k ≤ e; " + why
+					}
+				}
+			}
+		}
+	}
+	// min(a, b, …) ≤ y if any argument is
+	if !x.Len {
+		if mc, ok := stripIntConv(x.V).(*ssa.Call); ok {
+			if b, isB := mc.Call.Value.(*ssa.Builtin); isB && b.Name() == "min" {
+				for _, arg := range mc.Call.Args {
+					if ok2, why := a.proveLEd(termOf(arg), y, at, depth-1); ok2 {
+						return true, "min(…) ≤ one of its arguments; " + why
+					}
+				}
+			}
+		}
+	}
+	if y.Len && y.Cap {
+		switch yv := stripIface(a.w.resolveLoad(y.V)).(type) {
+		case *ssa.MakeSlice: // cap(make(_, l, c)) = c
+			if ok2, why := a.proveLEd(x, termOf(yv.Cap), at, depth-1); ok2 {
+				return true, "cap(make(_, _, c)) = c; " + why
+			}
+		case *ssa.Call: // cap(append(s, ...)) ≥ cap(s)
+			if b, isB := yv.Call.Value.(*ssa.Builtin); isB && b.Name() == "append" && len(yv.Call.Args) >= 1 {
+				if ok2, why := a.proveLEd(x, Term{Len: true, Cap: true, V: yv.Call.Args[0]}, at, depth-1); ok2 {
+					return true, "cap(append(s, …)) ≥ cap(s); " + why
+				}
+			}
+		case *ssa.Slice: // cap(s[lo:hi]) = cap(s) - lo when there is no third index
+			if yv.Max == nil && yv.Low == nil {
+				if ok2, why := a.proveLEd(x, Term{Len: true, Cap: true, V: yv.X}, at, depth-1); ok2 {
+					return true, "cap(s[:h]) = cap(s); " + why
+				}
+			}
+		}
+	}
 	// transitivity through one fact: x ≤ z (fact) and z ≤ y
 	for _, f := range facts {
 		var z Term
@@ -1265,6 +1334,22 @@ func (a *absint) proveLTd(x, y Term, at ssa.Instruction, depth int) (bool, strin
 			}
 		}
 	}
+	if ok, why := a.provePhiEdges(x, y, at, depth, true); ok {
+		return true, why
+	}
+	if ok, why := a.proveLinear(x, y, at, 1); ok {
+		return true, why
+	}
+	if !x.Len {
+		// e - c < y if e < y and c ≥ 0
+		if bo, ok := stripIntConv(x.V).(*ssa.BinOp); ok && bo.Op == token.SUB {
+			if c := a.rangeAt(bo.Y, at, 2); c.lo >= 0 {
+				if ok2, why := a.proveLTd(termOf(bo.X), y, at, depth-1); ok2 {
+					return true, why + ", minus a non-negative amount"
+				}
+			}
+		}
+	}
 	// x < z (fact) and z ≤ y ; x ≤ z and z < y
 	for _, f := range facts {
 		if f.Op == "<" && f.Truth && a.sameTerm(f.X, x) && !a.sameTerm(f.Y, y) {
@@ -1274,6 +1359,78 @@ func (a *absint) proveLTd(x, y Term, at ssa.Instruction, depth int) (bool, strin
 		}
 	}
 	return false, fail
+}
+
+// provePhiEdges: x is a phi (a loop counter in any loop shape, a merged index): x ⋈ y holds
+// if on every feasible incoming edge the operand ⋈ y holds under the facts at the end of
+// that edge's predecessor plus the edge's own condition. y must not be defined inside the
+// cycle of the phi (it is evaluated where the phi is used); that is the case for every term
+// whose value dominates the phi's block.
+func (a *absint) provePhiEdges(x, y Term, at ssa.Instruction, depth int, strict bool) (bool, string) {
+	if x.Len || depth <= 0 {
+		return false, ""
+	}
+	phi, ok := stripIntConv(x.V).(*ssa.Phi)
+	if !ok || a.phiProof[phi] {
+		return false, ""
+	}
+	// y stable: a constant, a parameter, or an instruction whose block dominates the phi's
+	stable := func(v ssa.Value) bool {
+		switch t := v.(type) {
+		case *ssa.Const, *ssa.Parameter, *ssa.Global, *ssa.FreeVar:
+			return true
+		case ssa.Instruction:
+			return t.Block() != nil && t.Parent() == phi.Parent() && t.Block() != phi.Block() && t.Block().Dominates(phi.Block())
+		}
+		return false
+	}
+	if !stable(y.V) {
+		// len(s) with s a value that dominates the phi is stable too (the term is about s)
+		if !(y.Len && stable(stripIface(y.V))) {
+			return false, ""
+		}
+	}
+	if a.phiProof == nil {
+		a.phiProof = map[*ssa.Phi]bool{}
+	}
+	a.phiProof[phi] = true
+	defer delete(a.phiProof, phi)
+	if a.edgeCtx == nil {
+		a.edgeCtx = map[ssa.Instruction][]TFact{}
+	}
+	n := 0
+	for i, e := range phi.Edges {
+		pred := phi.Block().Preds[i]
+		if deadEdge(pred, phi.Block()) || len(pred.Instrs) == 0 {
+			continue
+		}
+		n++
+		last := pred.Instrs[0] // facts are per block: any instruction of pred stands for its end
+		var ef []TFact
+		for _, f := range edgeFacts(pred, phi.Block()) {
+			ef = append(ef, a.lift(f, 2)...)
+		}
+		old, had := a.edgeCtx[last]
+		a.edgeCtx[last] = append(append([]TFact{}, old...), ef...)
+		var ok2 bool
+		if strict {
+			ok2, _ = a.proveLTd(termOf(e), y, last, depth-1)
+		} else {
+			ok2, _ = a.proveLEd(termOf(e), y, last, depth-1)
+		}
+		if had {
+			a.edgeCtx[last] = old
+		} else {
+			delete(a.edgeCtx, last)
+		}
+		if !ok2 {
+			return false, ""
+		}
+	}
+	if n == 0 {
+		return false, ""
+	}
+	return true, "holds for the operand of every incoming edge of the phi"
 }
 
 // ioCountCall: Read/ReadFrom/Write/WriteTo/ReadFull-style calls whose first result is a byte
